@@ -28,6 +28,7 @@ TARGETS = {
     "loop": (["vfz.c", "vk.c", "t_loop.c"], WRAPS_VK, "asan", []),
     "avl": (["vfz.c", "t_avl.c"], [], "asan", []),
     "timers": (["vfz.c", "vk.c", "t_timers.c"], WRAPS_VK, "asan", []),
+    "pump": (["vfz.c", "t_pump.c"], ["read", "write", "splice", "shutdown"], "asan", []),
 }
 
 
